@@ -95,7 +95,11 @@ def gen_cases(rng: random.Random, count: int):
                                           {'sts': 'REMAINING', 'mts': names[k:]}])
         if len(cases) % 3 == 0:
             enc['copyright'] = rng.choice(['© é ü 漢字', 'naïve\n\u2028sep', 'Ünïcødé ✓'])
-        cases.append({'doc': M.to_json(gen.model), 'cfg': enc})
+        doc = M.to_json(gen.model)
+        if len(cases) % 3 == 1:
+            # text outside ASCII inside the model itself (the C++ type an extern stands for)
+            doc = json.loads(json.dumps(doc).replace('::vx::T', '::vx::Gr\\u00f6\\u00dfe_T'))
+        cases.append({'doc': doc, 'cfg': enc})
         if len(cases) % 4 == 1 and len(cases) < count:
             # a second revision of the same model: every name is the same, the externs mean
             # other C++ types - built in the same processes as the first, in either order
@@ -137,8 +141,12 @@ def prepare_ambient(kind: str, cases, root: str):
                     fh.write('// a Dezyne model\n')
                 os.symlink(stored, target)
     if kind == 'other-user-and-time':
+        # ... and an interpreter set up differently: optimised, no UTF-8 default encoding,
+        # warnings of the library as errors, logging at DEBUG (see vlib.surroundings)
         env = {'HOME': '/nonexistent/home', 'USER': 'someone-else', 'LOGNAME': 'someone-else',
                'TZ': 'Pacific/Kiritimati', 'LANG': 'C', 'LC_ALL': 'C', 'COLUMNS': '40',
+               'PYTHONUTF8': '0', 'PYTHONCOERCECLOCALE': '0', 'PYTHONOPTIMIZE': '1',
+               'VERIF_CHILD_SETUP': 'warnings,logging',
                'VERIF_CLOCK_SHIFT': str(400 * 86400 + 7 * 3600 + 11 * 60)}
     return cwd, env
 
@@ -180,6 +188,9 @@ def main(tier: str) -> int:
             cwd, env_extra = ambients[kind]
             if len(jobs) % 2:
                 env_extra = dict(env_extra, VERIF_REVERSE_CASES='1')
+            if (len(jobs) // 2) % 2:
+                # the model comes from a file (UTF-8, as the Dezyne tools write it)
+                env_extra = dict(env_extra, VERIF_MODEL_FROM_FILE='1')
             if len(jobs) % 3 == 2:
                 env_extra = dict(env_extra, VERIF_SHARED_CONFIGURATION='1')
                 shared_cfg_jobs.append((hs, (hs * 7 + k) if k else 'none'))
@@ -190,6 +201,7 @@ def main(tier: str) -> int:
             kind_of[(hs, jobs[-1][2])] = kind
     reference = {}
     run.require('executions_compared', 'md5_recomputed', 'cases_with_non_ascii_contents',
+                'cases_with_non_ascii_text_in_the_model', 'children_loading_the_model_from_a_file',
                 'cases_with_relative_model_filename', 'cases_with_mixed_requires_semantics',
                 'children_with_one_builder_for_all_cases', 'cases_that_are_a_second_revision_of_another',
                 'children_with_one_configuration_object_for_all_cases',
@@ -242,6 +254,8 @@ def main(tier: str) -> int:
     run.count('cases_with_relative_model_filename',
               sum(1 for c in cases if c['cfg'].get('filename') and not os.path.isabs(c['cfg']['filename'])))
     run.count('cases_with_non_ascii_contents', sum(1 for c in cases if not c['cfg']['copyright'].isascii()))
+    run.count('cases_with_non_ascii_text_in_the_model', sum(1 for c in cases if not json.dumps(c['doc'], ensure_ascii=False).isascii()))
+    run.count('children_loading_the_model_from_a_file', sum(1 for j in jobs if j[4].get('VERIF_MODEL_FROM_FILE')))
     run.extra['hashseeds'] = seeds
     return run.finish(
         rule='valid (model, configuration) cases built in child interpreters: PYTHONHASHSEED '
